@@ -26,10 +26,12 @@ impl Check for C03 {
             Phase { name: "length-class grid: each of AAD / payload at 0,1,22-25,254-257,65534-65537 (and the 16x16 product in thorough)", cases: if q { 2 * 16 } else { 2 * 16 + 256 }, exhaustive: true },
             Phase { name: "messages decoded from non-canonical wire forms (Sign1 and 1-3-signer Sign, embedded and detached)", cases: scale(if q { 24000 } else { 300000 }, b), exhaustive: false },
             Phase { name: "adversarial near-collisions: bytes moved across adjacent slots, body/signer swapped, empty vs absent signer header", cases: scale(if q { 6000 } else { 60000 }, b), exhaustive: false },
+            Phase { name: "birthday: the structure of a built protected header with 2^17 pairwise distinct text labels", cases: 1, exhaustive: true },
         ]
     }
     fn run_case(&self, ctx: &mut Ctx, phase: usize, idx: u64) {
         match phase {
+            4 => birthday_structure_case(ctx, "Sig_structure"),
             0 => {
                 let (o1, o2) = (origin(ctx), origin(ctx));
                 let body = gen_prot_variant(ctx, o1);
